@@ -30,8 +30,28 @@ Print Assumptions C01_total_injection.
 (* the density written on a terminal's edges carries exactly the requested current when the
    assignment is balanced: L_t * density_t = I_t *)
 Theorem C01_density_balanced :
-  forall (ts : list (terminal OpsR)) (I : list R) (t : nat) (tm : terminal OpsR),
+  forall (comp : bool) (ts : list (terminal OpsR)) (I : list R) (t : nat) (tm : terminal OpsR),
     Rsum (fun x => x) I = 0 -> nth_error ts t = Some tm -> t_len _ tm <> 0 -> (t < length I)%nat ->
-    t_len _ tm * density OpsR ts I t = nth t I 0.
+    t_len _ tm * density OpsR comp ts I t = nth t I 0.
 Proof. exact density_balanced. Qed.
 Print Assumptions C01_density_balanced.
+
+(* which of CPython's two summation paths runs (Neumaier-compensated for exact floats since 3.12, plain for numpy
+   scalars) is irrelevant over the reals *)
+Theorem C01_sum_compensation_irrelevant :
+  forall comp k skip (I : list R), sum_others OpsR comp k skip I = sum_others_acc OpsR 0 k skip I.
+Proof. exact sum_others_comp_irrelevant. Qed.
+Print Assumptions C01_sum_compensation_irrelevant.
+
+(* the change-only cache of update_mu_boundary: after ANY sequence of calls (time-dependent currents, repeats,
+   switching off and on again) every terminal edge carries the density computed from scratch for the LAST
+   currents, and every other boundary edge carries 0.  Hypothesis: terminals cover disjoint boundary edges. *)
+Theorem C01_cache_coherent :
+  forall (comp : bool) (all : list (terminal OpsR)) (Is : list (list R)) (I_last : list R),
+    disjoint_terminals all ->
+    let st0 := (repeat 0 (length all), fun _ : nat => 0) in
+    let st := fold_left (fun s I => update_mu_boundary OpsR comp all I s) (Is ++ [I_last]) st0 in
+    (forall j tm b, nth_error all j = Some tm -> In b (t_edges _ tm) -> snd st b = density OpsR comp all I_last j) /\
+    (forall b, (forall j tm, nth_error all j = Some tm -> ~ In b (t_edges _ tm)) -> snd st b = 0).
+Proof. exact cache_coherent. Qed.
+Print Assumptions C01_cache_coherent.
